@@ -32,7 +32,7 @@ pub fn check_scenario(s: &Scenario, src: &mut Src, rebuilds: usize) -> Verdict {
         Ok(x) => x,
         Err(e) => return fail("valid-scenario-rejected", format!("{} ;; {}", e, describe(s))),
     };
-    let want = expected(s);
+    let want = expected(&s.effective());
     // (1) model
     if let Err(v) = check_against(&first, &want, s) {
         return v;
@@ -64,7 +64,7 @@ pub fn check_epochs(s: &Scenario, src: &mut Src, rep: &mut Report) -> Verdict {
         Ok(x) => x,
         Err(e) => return fail("valid-scenario-rejected", format!("{} ;; {}", e, describe(s))),
     };
-    if let Err(v) = check_against(&neutral_all(&reg.gather()), &expected(s), s) {
+    if let Err(v) = check_against(&neutral_all(&reg.gather()), &expected(&s.effective()), s) {
         return v;
     }
     let mut cur = s.clone();
@@ -76,7 +76,7 @@ pub fn check_epochs(s: &Scenario, src: &mut Src, rep: &mut Report) -> Verdict {
         }
         changes.extend(log.iter().map(|l| format!("epoch {}: {}", epoch + 1, l)));
         cur = next;
-        if let Err(v) = check_against(&neutral_all(&reg.gather()), &expected(&cur), &cur) {
+        if let Err(v) = check_against(&neutral_all(&reg.gather()), &expected(&cur.effective()), &cur) {
             return match v {
                 Verdict::Fail { sig, detail } => Verdict::Fail { sig, detail: format!("after changes to a registry that had been gathered before [{}]: {}", changes.join("; "), detail) },
                 v => v,
@@ -197,6 +197,9 @@ impl Property for C07 {
         }
         if !s.bundles.is_empty() {
             rep.class("composite-collector(families returned in another order than the descriptors)");
+        }
+        if s.bundles.iter().any(|b| b.nested) {
+            rep.class("composite-collector-gathers-a-registry-of-its-own");
         }
         if rep.want_sample {
             rep.sample = Some(describe(&s));
